@@ -173,7 +173,7 @@ uint8_t *c04_dup(const uint8_t *p, size_t n)
 // watchdog
 // ---------------------------------------------------------------------------------------------------------------
 static char wd_msg[600];
-static unsigned wd_wall = 300, wd_cpu = 90;
+static unsigned wd_wall = 150, wd_cpu = 60;
 
 static void on_alarm(int sig)
 {
@@ -264,7 +264,7 @@ int main(void)
 			c04_junk = 0xA5;
 			exec_once(&op, &r1);
 			if (!strcmp(cmd, "run2") && r1.bad[0] == '\0') {
-				c04_junk = 0x3C;
+				c04_junk = 0x00;
 				exec_once(&op, &r2);
 				if (r2.bad[0] != '\0') {
 					r1 = r2;
